@@ -158,3 +158,54 @@ pub fn sent_dgrams<'a>(rec: &'a CallRec, codec: CodecKind, sig_prefix: &str) -> 
     }
     Ok(out)
 }
+
+/// Connection state as implied by the notification stream (C08's machine), reused by other monitors.
+#[derive(Clone, Copy, PartialEq, Eq, Debug, Hash)]
+pub enum ConnState {
+    Idle,
+    Active,
+    Defunct,
+}
+
+#[derive(Clone, Debug)]
+pub struct ConnTracker {
+    pub state: ConnState,
+    /// number of epoch changes so far (Idle, Defunct, Rejoin, successful change_identity / reuse_down_identity)
+    pub epoch: u64,
+}
+
+impl Default for ConnTracker {
+    fn default() -> Self {
+        ConnTracker { state: ConnState::Idle, epoch: 0 }
+    }
+}
+
+impl ConnTracker {
+    pub fn absorb(&mut self, rec: &CallRec) {
+        if let (Call::ChangeIdentity(_), true) | (Call::ReuseDown, true) = (&rec.call, rec.res.is_ok()) {
+            // reset() happens before anything else in these calls
+            self.state = ConnState::Idle;
+            self.epoch += 1;
+        }
+        for e in &rec.evs {
+            if let Ev::Note(n) = e {
+                match n {
+                    N::Active => self.state = ConnState::Active,
+                    N::Idle => {
+                        self.state = ConnState::Idle;
+                        self.epoch += 1;
+                    }
+                    N::Defunct => {
+                        self.state = ConnState::Defunct;
+                        self.epoch += 1;
+                    }
+                    N::Rejoin(_) => {
+                        self.state = ConnState::Idle;
+                        self.epoch += 1;
+                    }
+                    _ => {}
+                }
+            }
+        }
+    }
+}
